@@ -137,11 +137,14 @@ class StreamingHandler(AsyncCallbackHandler, AsyncIterator):
         else:
             return element
 
-    async def _process(self, chunk: str):
+    async def _process(self, chunk: str, last_chunk: bool = False):
         """Process a chunk of text.
 
         If we're in buffering mode, we just record it.
         If we need to pipe it to another streaming handler, we do that.
+
+        When `last_chunk` is set, the text ends with this chunk and the suffix is
+        removed from it.
         """
         if self.enable_buffer:
             self.buffer += chunk
@@ -152,31 +155,41 @@ class StreamingHandler(AsyncCallbackHandler, AsyncIterator):
             if len(lines) > self.k > 0:
                 self.top_k_nonempty_lines_event.set()
         else:
-            # Temporarily save the content of the completion before this new chunk.
-            prev_completion = self.completion
+            # Whether the text is cut by one of the stop chunks.
+            stopped = False
             if chunk is not None:
-                self.completion += chunk
-
                 # Check if the completion contains one of the stop chunks
-                for stop_chunk in self.stop:
-                    if stop_chunk in self.completion:
-                        # Make sure the stop chunk is not included
-                        self.completion = self.completion.split(stop_chunk)[0]
+                completion = self.completion + chunk
+                stop_indices = [
+                    completion.find(stop_chunk)
+                    for stop_chunk in self.stop
+                    if stop_chunk in completion
+                ]
+                if stop_indices:
+                    # Make sure nothing is included starting with the first stop chunk
+                    chunk = completion[len(self.completion) : min(stop_indices)]
+                    stopped = True
 
-                        # If the current chunk does add something new to the final completion
-                        # We push that as well.
-                        if len(self.completion) > len(prev_completion):
-                            self.current_chunk = self.completion[len(prev_completion) :]
-                            await self.push_chunk(None)
-
-                        # And we stop the streaming
+                    # If the current chunk does not add anything new to the final
+                    # completion, we just stop the streaming.
+                    if not chunk:
                         self.streaming_finished_event.set()
                         self.top_k_nonempty_lines_event.set()
                         return
 
+                # The suffix is only removed from the end of the text.
+                if (
+                    (stopped or last_chunk)
+                    and self.suffix
+                    and chunk.endswith(self.suffix)
+                ):
+                    chunk = chunk[0 : -1 * len(self.suffix)]
+
+                self.completion += chunk
+
             if self.pipe_to:
                 asyncio.create_task(self.pipe_to.push_chunk(chunk))
-                if chunk is None or chunk == "":
+                if stopped or chunk is None or chunk == "":
                     self.streaming_finished_event.set()
                     self.top_k_nonempty_lines_event.set()
             else:
@@ -184,7 +197,7 @@ class StreamingHandler(AsyncCallbackHandler, AsyncIterator):
                     print(f"\033[92m{chunk}\033[0m", end="", flush=True)
                 await self.queue.put(chunk)
 
-                if chunk is None or chunk == "":
+                if stopped or chunk is None or chunk == "":
                     self.streaming_finished_event.set()
                     self.top_k_nonempty_lines_event.set()
 
@@ -213,13 +226,14 @@ class StreamingHandler(AsyncCallbackHandler, AsyncIterator):
                 self.current_chunk += chunk
 
             if self.current_chunk.startswith(self.prefix):
-                self.current_chunk = self.current_chunk[len(self.prefix) :]
+                chunk = self.current_chunk[len(self.prefix) :]
+                self.current_chunk = ""
                 self.prefix = None
 
-                # If we're left with something, we "forward it".
-                if self.current_chunk:
-                    await self._process(self.current_chunk)
-                    self.current_chunk = ""
+                # If we're left with something, we "forward it". It still needs to be
+                # checked for the suffix and the stop chunks.
+                if chunk:
+                    await self.push_chunk(chunk)
         elif self.suffix or self.stop:
             # If we have a suffix, we always check that the total current chunk does not end
             # with the suffix.
@@ -250,17 +264,10 @@ class StreamingHandler(AsyncCallbackHandler, AsyncIterator):
                 # the generation ends and if there's something left, will be processed then.
                 return
             else:
-                if chunk == "" or chunk is None:
-                    if (
-                        self.current_chunk
-                        and self.suffix
-                        and self.current_chunk.endswith(self.suffix)
-                    ):
-                        self.current_chunk = self.current_chunk[
-                            0 : -1 * len(self.suffix)
-                        ]
-
-                await self._process(self.current_chunk)
+                # When the generation ends, the suffix is removed from what is left.
+                await self._process(
+                    self.current_chunk, last_chunk=(chunk == "" or chunk is None)
+                )
                 self.current_chunk = ""
         else:
             await self._process(chunk)
@@ -310,10 +317,7 @@ class StreamingHandler(AsyncCallbackHandler, AsyncIterator):
     ) -> None:
         """Run when LLM ends running."""
         if self.current_chunk:
-            if self.suffix and self.current_chunk.endswith(self.suffix):
-                self.current_chunk = self.current_chunk[: -1 * len(self.suffix)]
-
-            await self._process(self.current_chunk)
+            await self._process(self.current_chunk, last_chunk=True)
             self.current_chunk = ""
 
         await self._process("")
